@@ -604,6 +604,11 @@ class ReindexLike(Contract):
         for cfg in self.CONFIGS:
             for form in ("dimarray", "axes"):
                 yield {"name": "%s-%s" % (cfg, form), "cfg": cfg, "form": form}
+        # "reindex_like applies the same rule to every dimension shared with the template": the keywords are part of the rule
+        for cfg in ("x0|x0", "x0x1|x1x0"):
+            for method in ("left", "right"):
+                yield {"name": "%s-dimarray-method_%s" % (cfg, method), "cfg": cfg, "form": "dimarray", "method": method}
+        yield {"name": "x0|x0-dimarray-raise_error", "cfg": "x0|x0", "form": "dimarray", "raise_error": True}
 
     def bound_lengths(self, case):
         da_, do_ = self.CONFIGS[case["cfg"]]
@@ -632,9 +637,18 @@ class ReindexLike(Contract):
         return {"arr": arr, "la": la, "lo": lo, "data": data, "old": S.snapshot(data), "other": other, "da": da_, "do": do_, "axes0": list(arr.axes)}
 
     def call(self, fn, env):
-        return env["arr"].reindex_like(env["other"])
+        case = env["case"]
+        kw = {}
+        if case.get("method"):
+            kw["method"] = case["method"]
+        if case.get("raise_error"):
+            kw["raise_error"] = True
+        return env["arr"].reindex_like(env["other"], **kw)
 
     def raises(self, S, case, env):
+        if case.get("raise_error"):
+            da_, do_, la, lo = env["da"], env["do"], env["la"], env["lo"]
+            return {IndexError: S.lor(*[S.exists(0, S.n(lo[d]), lambda k, d=d: absent(S, la[d], S.at(lo[d], k))) for d in da_ if d in do_])}
         return {IndexError: False}
 
     def post(self, S, case, env, result):
@@ -649,6 +663,30 @@ class ReindexLike(Contract):
                 k < S.n(Lr), lambda: S.at(Lr, k) == S.at(want, k))))
         shape = [S.n(R[d]) for d in da_]
         rv, old = result.values, env["old"]
+        calls = S.calls("ReindexAxis")
+        if calls:
+            shared = [d for d in da_ if d in do_]
+            yield "one-reindex_axis-call-per-shared-dimension-with-the-keywords-forwarded", S.land(
+                len(calls) == len(shared), *[cl[1]["method"] == case.get("method") and cl[1]["raise_error"] == bool(case.get("raise_error")) for cl in calls])
+        if case.get("method"):
+            # the neighbour rule itself is reindex_axis' contract (ReindexAxis, method cases); here: what is shared with the plain rule
+            strict = case["method"] == "right"
+            above = (lambda u, v: u > v) if strict else (lambda u, v: u >= v)
+
+            def neighbour(d, k, p):
+                x, L, n = S.at(R[d], k), la[d], S.n(la[d])
+                is_next = S.land(above(S.at(L, p), x), S.forall(0, n, lambda i: S.implies(above(S.at(L, i), x), lambda: S.at(L, i) >= S.at(L, p))))
+                is_last = S.land(S.forall(0, n, lambda i: S.lnot(above(S.at(L, i), x))), S.forall(0, n, lambda i: S.at(L, i) <= S.at(L, p)))
+                return S.lor(is_next, is_last)
+            if len(da_) == 1:
+                d0 = da_[0]
+                yield "neighbour-in-sorted-order-as-searchsorted", S.forall(0, shape[0], lambda k: S.forall(0, S.n(la[d0]), lambda p: S.implies(
+                    neighbour(d0, k, p), lambda: S.same(S.at(rv, k), S.at(old, p)))))
+            else:
+                yield "neighbour-in-sorted-order-as-searchsorted", S.forall_nd(shape, lambda k0, k1: S.forall_nd([S.n(la[da_[0]]), S.n(la[da_[1]])], lambda p0, p1: S.implies(
+                    S.land(neighbour(da_[0], k0, p0), neighbour(da_[1], k1, p1)), lambda: S.same(S.at(rv, k0, k1), S.at(old, p0, p1)))))
+            yield "metadata-kept", dict(result.attrs) == {"units": "K"}
+            return
 
         def present(*k):
             def inner(*p):
